@@ -130,4 +130,9 @@ O_R == { OSeq, OPar, OLoop(Let("a"), FALSE), OLoop(I3, TRUE), OSub(I1), OSub(Num
 H_T == { Hdr(<<DLet("a", I1)>>, <<DReg("q", NumI(5))>>, <<"mypulses.sub">>, <<>>) }
 T_T == { G("g", <<QI("q", 0)>>), G("g", <<QI("q", 1)>>), G("g", <<QI("q", 2)>>), G("h", <<QI("q", 3), Let("a")>>) }
 O_T == { OSeq, OPar, OLoop(I2, FALSE), OSub(I1) }
+
+\* ---------------------------------------------------------------- C17: programs expressible in all three front ends
+H_F == { Hdr(<<DLet("a", I2), DLet("__r0", I3), DLet("__c0", I1)>>, <<DReg("q", Let("__r0"))>>, <<>>, <<>>) }
+T_F == { G("g", <<QI("q", 0), F15>>), G("k", <<Qb("q", Let("a"))>>), G("h", <<Let("a"), Let("__c0")>>), G("prepare_all", <<>>) }
+O_F == { OSeq, OPar, OLoop(Let("a"), FALSE), OLoop(I2, FALSE), OSub(I1), OSub(Let("__r0")) }
 =============================================================================
